@@ -388,6 +388,10 @@ def powInt (a b : Int) : Except Exc Int :=
     `isinstance(x, slice)`, the members of a `slice` object -/
 namespace Small
 
+/-- `d.get(k, default)` -/
+def dictGet {κ α : Type} [BEq κ] (d : List (κ × α)) (k : κ) (default : α) : α :=
+  (d.lookup k).getD default
+
 /-- `str(None)` -/
 def noneStr : Str := ['N', 'o', 'n', 'e']
 
